@@ -22,7 +22,7 @@ func H20d() {
 		b := make([]byte, n)
 		for i := range b {
 			c := vU8()
-			vAssume(c >= 'a' && c <= 'z' || c == ':' || c == '.')
+			vAssume(c >= 'a' && c <= 'z' || c == ':') // no dot segments: RFC 3986 resolution removes them
 			b[i] = c
 		}
 		path = "/" + string(b)
